@@ -244,8 +244,23 @@ void f_implode (void) {
     {
       /* st_num_arg == 2 here */
       char *str;
+      size_t len = 0, del_len = SVALUE_STRLEN (sp);
+      int i, num = 0;
 
-      str = implode_string (arr, sp->u.string, SVALUE_STRLEN (sp));
+      /* the result is an LPC value: refuse it before it is built, while the
+       * array and the delimiter are still on the stack */
+      for (i = 0; i < arr->size; i++)
+        if (arr->item[i].type == T_STRING)
+          {
+            len += SVALUE_STRLEN (&arr->item[i]);
+            num++;
+          }
+      if (num > 1)
+        len += (size_t) (num - 1) * del_len;
+      if (len > (size_t)CONFIG_INT (__MAX_STRING_LENGTH__))
+        error ("implode: result exceeds maximum string length.\n");
+
+      str = implode_string (arr, sp->u.string, del_len);
       free_string_svalue (sp--);
       free_array (arr);
       put_malloced_string (str);
